@@ -168,13 +168,24 @@ PROPS = {
     'C17': dict(
         title='Instruction encoding and decoding are inverse, and all encoders agree',
         parts=[
-            Part('codec', lambda h: not h.startswith('bounded_'), real_or_harness,
+            Part('codec', lambda h: not h.startswith('bounded_') and not h.startswith('helper_'), real_or_harness,
                  'real crate linked as a dependency: to_array == reference LE encoding, get_insn o to_array = id and to_array o get_insn = id on all 2^64 slots, to_vec == to_array, get_insn at any index, panic exactly outside the program, every builder constructor x symbolic fields == Insn::to_array of the named opcode, push appends the same bytes'),
             Part('codec', lambda h: h.startswith('bounded_'), real_or_harness,
                  'BOUNDED stand-in (3 slots): to_insn_vec loop'),
         ],
         level_text='Loop-free full-domain Kani harnesses over the real public API (complete proofs); to_insn_vec loop bounded at 3 slots and labelled bounded.',
         assumptions=[],
+    ),
+    'C19': dict(
+        title='Built-in helpers compute their documented functions',
+        parts=[
+            Part('codec', lambda h: h == 'helper_gather_bytes', real_or_harness, 'Kani, real crate, full domain: gather_bytes'),
+            Part('helpers', lambda h: True, lambda h, c, info=None: True,
+                 'Verus: memfrob (XORs exactly [ptr, ptr+len) once, everything else unchanged), strcmp (null => all-ones; else absdiff at the first differing/terminating position; lemma: 0 <=> equal strings), rand tail (min < max => min <= r <= max, no overflow)'),
+        ],
+        level_text='Proof for gather_bytes (Kani, complete), memfrob / strcmp (Verus loop invariants over an abstract byte memory), the arithmetic of rand (Verus). sqrti and the return value of bpf_trace_printf are floating point and stay UNVERIFIED.',
+        assumptions=['sqrti and bpf_trace_printf: f64 sqrt/log - outside both tools; reading of the code: bpf_trace_printf(_,_,u64::MAX,0,0) returns 48 for 47 printed bytes (f64 rounding of log16), noted, not decided by this check',
+                     'bpf_time_getns is not part of the statement'],
     ),
     'C18': dict(
         title='Atomic add (sequential contract + single atomic RMW)',
